@@ -46,13 +46,101 @@ theorem isWindowsAbs_tilde (p : Str) (h : tilde p = true) : isWindowsAbs? p = so
           simp [hl, hs]
     simp [isWindowsAbs?, hv]
 
+theorem isWindowsAbs_eq_T (p : Str) : isWindowsAbs? p = some (isWindowsAbsT p) := by
+  obtain ⟨b, hb⟩ := isWindowsAbs_total p
+  simp [isWindowsAbsT, hb]
+
+/-- a path starting with `.` is never Windows-absolute -/
+theorem isWindowsAbs_dot (p : Str) : isWindowsAbs? ('.' :: p) = some false := by
+  have hv : volumeNameLen? ('.' :: p) = some 0 := by
+    unfold volumeNameLen?
+    split
+    · rfl
+    · cases p with
+      | nil => simp at *
+      | cons d ds =>
+        have hl : isLetter '.' = false := by decide
+        have hs : isSlash '.' = false := by decide
+        simp [hl, hs]
+  simp [isWindowsAbs?, hv]
+
+/-! ### the guarded join of the resolvers -/
+
+/-- the guard of `joinWd` -/
+def guardRel (j : Str) : Str := if !isAbs j && ambiguous j then '.' :: '/' :: j else j
+
+theorem joinWd_eq (wd v : Str) : joinWd wd v = guardRel (join wd v) := rfl
+
+theorem joinWd_cases (wd v : Str) :
+    (joinWd wd v = join wd v ∧ (isAbs (join wd v) = true ∨ ambiguous (join wd v) = false)) ∨
+    (joinWd wd v = '.' :: '/' :: join wd v ∧ isAbs (join wd v) = false ∧ ambiguous (join wd v) = true) := by
+  rw [joinWd_eq]
+  unfold guardRel
+  cases ha : isAbs (join wd v) <;> cases hb : ambiguous (join wd v) <;> simp
+
+theorem isRemoteContext_dot (p : Str) : isRemoteContext ('.' :: p) = false := by
+  simp [isRemoteContext, remotePrefixes, List.isPrefixOf]
+
+theorem joinWd_of_abs (wd v : Str) (h : isAbs wd = true) : joinWd wd v = join wd v := by
+  simp [joinWd, isAbs_join wd v h]
+
+theorem isAbs_joinWd (wd v : Str) : isAbs (joinWd wd v) = isAbs (join wd v) := by
+  rcases joinWd_cases wd v with ⟨h, _⟩ | ⟨h, h2, _⟩
+  · rw [h]
+  · rw [h, h2]; simp [isAbs]
+
+theorem joinWd_ne_nil (wd v : Str) (hwd : wd ≠ []) : joinWd wd v ≠ [] := by
+  rcases joinWd_cases wd v with ⟨h, _⟩ | ⟨h, _, _⟩
+  · rw [h]; exact join_ne_nil wd v hwd
+  · rw [h]; simp
+
+theorem hasDS_join (wd v : Str) (hwd : wd ≠ []) : hasDS (join wd v) = false := by
+  rw [join_of_ne wd v hwd]; exact hasDS_clean _
+
+/-- a relative guarded join is read by every later stage as a plain local path -/
+theorem joinWd_plain (wd v : Str) (hwd : wd ≠ []) (hrel : isAbs (join wd v) = false) :
+    tilde (joinWd wd v) = false ∧ isRemoteContext (joinWd wd v) = false ∧
+    isWindowsAbs? (joinWd wd v) = some false ∧ containsStr schemeSep (joinWd wd v) = false := by
+  rcases joinWd_cases wd v with ⟨h, h2⟩ | ⟨h, _, _⟩
+  · rw [h]
+    have ha : ambiguous (join wd v) = false := by
+      rcases h2 with h2 | h2
+      · rw [hrel] at h2; cases h2
+      · exact h2
+    simp only [ambiguous, Bool.or_eq_false_iff] at ha
+    refine ⟨by simpa [tilde] using ha.1.1, ha.1.2, ?_, no_scheme_of_noDS _ (hasDS_join wd v hwd)⟩
+    rw [isWindowsAbs_eq_T, ha.2]
+  · rw [h]
+    refine ⟨by simp [tilde], isRemoteContext_dot _, isWindowsAbs_dot _, ?_⟩
+    apply no_scheme_of_noDS
+    have hd := hasDS_join wd v hwd
+    cases hj : join wd v with
+    | nil => simp [hasDS]
+    | cons b r =>
+      rw [hj] at hd hrel
+      have hb : b ≠ '/' := by
+        intro e; simp [isAbs, e] at hrel
+      simp [hasDS, hb, hd]
+
+theorem join_joinWd (W R v : Str) (hW : W ≠ []) : join W (joinWd R v) = join W (join R v) := by
+  rcases joinWd_cases R v with ⟨h, _⟩ | ⟨h, _, _⟩
+  · rw [h]
+  · rw [h, join_of_ne W _ hW, join_of_ne W _ hW]; exact clean_dot_slash W _ hW
+
+/-- the guarded join composes: joining onto `W` what was joined onto the relative `R` = joining onto `Join(W, R)` -/
+theorem joinWd_joinWd (W R v : Str) (hW : W ≠ []) (hR : R ≠ []) (hRr : isAbs R = false) :
+    joinWd W (joinWd R v) = joinWd (join W R) v := by
+  have e : join W (joinWd R v) = join (join W R) v := by
+    rw [join_joinWd W R v hW, join_assoc W R v hW hR hRr]
+  rw [joinWd_eq W, e, ← joinWd_eq]
+
 /-! ### absPath -/
 
 theorem absPathStr_abs_untouched (cfg : Cfg) (s : Str) (h : isAbs s = true) : absPathStr cfg s = s := by
   simp [absPathStr, expandUser_of_abs _ _ h, h]
 
 theorem absPathStr_relative (cfg : Cfg) (s : Str) (ha : isAbs s = false) (hne : s ≠ []) (ht : tilde s = false) :
-    absPathStr cfg s = join cfg.wd s := by
+    absPathStr cfg s = joinWd cfg.wd s := by
   simp [absPathStr, expandUser_of_not_tilde _ _ ht, ha, hne]
 
 theorem absPathStr_tilde (cfg : Cfg) (h rest : Str) (hh : cfg.home = some h) (ha : isAbs h = true) :
@@ -62,7 +150,7 @@ theorem absPathStr_tilde (cfg : Cfg) (h rest : Str) (hh : cfg.home = some h) (ha
 theorem absPathStr_cases (cfg : Cfg) (s : Str) :
     let v := expandUser cfg.home s
     (isAbs v = true ∧ absPathStr cfg s = v) ∨ (v = [] ∧ absPathStr cfg s = []) ∨
-    (isAbs v = false ∧ v ≠ [] ∧ absPathStr cfg s = join cfg.wd v) := by
+    (isAbs v = false ∧ v ≠ [] ∧ absPathStr cfg s = joinWd cfg.wd v) := by
   simp only [absPathStr]
   by_cases h1 : isAbs (expandUser cfg.home s) = true
   · simp [h1]
@@ -76,7 +164,7 @@ theorem absPathStr_abs_or_nil (cfg : Cfg) (s : Str) (hwd : isAbs cfg.wd = true) 
   rcases absPathStr_cases cfg s with ⟨h1, h2⟩ | ⟨_, h2⟩ | ⟨_, _, h2⟩
   · left; rw [h2]; exact h1
   · right; exact h2
-  · left; rw [h2]; exact isAbs_join _ _ hwd
+  · left; rw [h2, joinWd_of_abs _ _ hwd]; exact isAbs_join _ _ hwd
 
 theorem absPathStr_fix (cfg : Cfg) (r : Str) (h : isAbs r = true ∨ r = []) : absPathStr cfg r = r := by
   rcases h with h | h
@@ -111,7 +199,7 @@ theorem maybeUnixStr_winabs_untouched (cfg : Cfg) (s : Str) (h : isWindowsAbs? s
   split <;> rfl
 
 theorem maybeUnixStr_relative (cfg : Cfg) (s : Str) (ha : isAbs s = false) (ht : tilde s = false)
-    (hw : isWindowsAbs? s = some false) : maybeUnixStr cfg s = .ok (join cfg.wd s) := by
+    (hw : isWindowsAbs? s = some false) : maybeUnixStr cfg s = .ok (joinWd cfg.wd s) := by
   simp [maybeUnixStr, expandUser_of_not_tilde _ _ ht, ha, hw]
 
 theorem maybeUnixStr_tilde (cfg : Cfg) (h rest : Str) (hh : cfg.home = some h) (ha : isAbs h = true) :
@@ -128,7 +216,7 @@ theorem maybeUnixStr_result (cfg : Cfg) (s r : Str) (hwd : isAbs cfg.wd = true) 
   · split at h
     · cases h
     · cases h; rename_i hw; exact .inr hw
-    · cases h; exact .inl (isAbs_join _ _ hwd)
+    · cases h; rw [joinWd_of_abs _ _ hwd]; exact .inl (isAbs_join _ _ hwd)
 
 theorem maybeUnixStr_fix (cfg : Cfg) (r : Str) (h : isAbs r = true ∨ isWindowsAbs? r = some true) :
     maybeUnixStr cfg r = .ok r := by
@@ -180,8 +268,7 @@ theorem absExtendsStr_idem (cfg : Cfg) (s : Str) (hwd : isAbs cfg.wd = true) :
 
 /-- stage 1 against the relative directory `R`, stage 2 against `W`, versus one stage against `Join(W, R)` -/
 theorem absPathStr_compose (home : Option Str) (remote : Str → Bool) (sym : Str → Option Str) (W R s : Str)
-    (hW : W ≠ []) (hR : R ≠ []) (hRr : isAbs R = false)
-    (hplain : tilde (absPathStr ⟨R, home, remote, sym⟩ s) = false) :
+    (hW : W ≠ []) (hR : R ≠ []) (hRr : isAbs R = false) :
     absPathStr ⟨W, home, remote, sym⟩ (absPathStr ⟨R, home, remote, sym⟩ s) =
       absPathStr ⟨join W R, home, remote, sym⟩ s := by
   rcases absPathStr_cases ⟨R, home, remote, sym⟩ s with ⟨h1, h2⟩ | ⟨h1, h2⟩ | ⟨h1, h1', h2⟩
@@ -197,17 +284,18 @@ theorem absPathStr_compose (home : Option Str) (remote : Str → Bool) (sym : St
       simp [isAbs]
     rw [e1, e2]
   · simp only at h1 h1' h2
-    rw [h2] at hplain ⊢
+    rw [h2]
     have hm_rel : isAbs (join R (expandUser home s)) = false := isAbs_join_rel _ _ hR hRr
-    have hm_ne : join R (expandUser home s) ≠ [] := join_ne_nil _ _ hR
-    rw [absPathStr_relative _ _ hm_rel hm_ne hplain]
+    have hm_rel' : isAbs (joinWd R (expandUser home s)) = false := by rw [isAbs_joinWd]; exact hm_rel
+    have hm_ne : joinWd R (expandUser home s) ≠ [] := joinWd_ne_nil _ _ hR
+    have hplain := joinWd_plain R (expandUser home s) hR hm_rel
+    rw [absPathStr_relative _ _ hm_rel' hm_ne hplain.1]
     simp only [absPathStr, h1, Bool.false_eq_true, if_false, h1', ne_eq, not_false_eq_true, if_true]
-    exact (join_assoc W R _ hW hR hRr).symm
+    exact joinWd_joinWd W R _ hW hR hRr
 
 theorem maybeUnixStr_compose (home : Option Str) (remote : Str → Bool) (sym : Str → Option Str) (W R s m : Str)
     (hW : W ≠ []) (hR : R ≠ []) (hRr : isAbs R = false)
-    (h1 : maybeUnixStr ⟨R, home, remote, sym⟩ s = .ok m)
-    (hplain : tilde m = false ∧ (isAbs (expandUser home s) = false → isWindowsAbs? (expandUser home s) = some false → isWindowsAbs? m = some false)) :
+    (h1 : maybeUnixStr ⟨R, home, remote, sym⟩ s = .ok m) :
     maybeUnixStr ⟨W, home, remote, sym⟩ m = maybeUnixStr ⟨join W R, home, remote, sym⟩ s := by
   unfold maybeUnixStr at h1
   simp only at h1
@@ -228,8 +316,56 @@ theorem maybeUnixStr_compose (home : Option Str) (remote : Str → Bool) (sym : 
     | false =>
       cases h1
       have hm_rel : isAbs (join R (expandUser home s)) = false := isAbs_join_rel _ _ hR hRr
-      rw [maybeUnixStr_relative _ _ hm_rel hplain.1 (hplain.2 ha' hb)]
+      have hm_rel' : isAbs (joinWd R (expandUser home s)) = false := by rw [isAbs_joinWd]; exact hm_rel
+      have hplain := joinWd_plain R (expandUser home s) hR hm_rel
+      rw [maybeUnixStr_relative _ _ hm_rel' hplain.1 hplain.2.2.1]
       simp only [maybeUnixStr, ha', Bool.false_eq_true, if_false, hb]
-      rw [join_assoc W R _ hW hR hRr]
+      rw [joinWd_joinWd W R _ hW hR hRr]
+
+/-- an absolute path is not URL-like unless it contains `://` -/
+theorem isRemoteContext_abs (p : Str) (h : isAbs p = true) : isRemoteContext p = false := by
+  cases p with
+  | nil => simp [isAbs] at h
+  | cons c cs =>
+    simp only [isAbs, List.head?_cons, Option.some.injEq, decide_eq_true_eq] at h
+    subst h
+    simp [isRemoteContext, remotePrefixes, List.isPrefixOf]
+
+/-- what the first stage writes for a local build context is not URL-like for the second stage -/
+theorem absPathStr_not_urlLike (cfg : Cfg) (s : Str) (hwd : cfg.wd ≠ []) (hrel : isAbs cfg.wd = false)
+    (hhome : ∀ h, cfg.home = some h → h ≠ []) (hu : urlLike s = false) : urlLike (absPathStr cfg s) = false := by
+  rcases absPathStr_cases cfg s with ⟨h1, h2⟩ | ⟨_, h2⟩ | ⟨h1, _, h2⟩
+  · rw [h2]
+    by_cases ht : tilde s = true
+    · -- the expansion is a cleaned join
+      cases s with
+      | nil => simp [tilde] at ht
+      | cons c rest =>
+        simp only [tilde, List.head?_cons, Option.some.injEq, decide_eq_true_eq] at ht
+        subst ht
+        cases hh : cfg.home with
+        | none => rw [hh, expandUser_nohome] at h1; simp [isAbs] at h1
+        | some hm =>
+          rw [hh] at h1
+          rw [expandUser_tilde] at h1 ⊢
+          simp only [urlLike, Bool.or_eq_false_iff]
+          exact ⟨no_scheme_of_noDS _ (hasDS_join hm rest (hhome hm hh)), isRemoteContext_abs _ h1⟩
+    · have ht' : tilde s = false := by simpa using ht
+      rw [expandUser_of_not_tilde _ _ ht']; exact hu
+  · rw [h2]; decide
+  · rw [h2]
+    have hp := joinWd_plain cfg.wd (expandUser cfg.home s) hwd (isAbs_join_rel _ _ hwd hrel)
+    simp [urlLike, hp.2.1, hp.2.2.2]
+
+theorem absContextStr_compose (home : Option Str) (remote : Str → Bool) (sym : Str → Option Str) (W R s : Str)
+    (hW : W ≠ []) (hR : R ≠ []) (hRr : isAbs R = false) (hhome : ∀ h, home = some h → h ≠ []) :
+    absContextStr ⟨W, home, remote, sym⟩ (absContextStr ⟨R, home, remote, sym⟩ s) =
+      absContextStr ⟨join W R, home, remote, sym⟩ s := by
+  cases hu : urlLike s with
+  | true => rw [absContextStr_url _ s hu, absContextStr_url _ s hu, absContextStr_url _ s hu]
+  | false =>
+    have h2 := absPathStr_not_urlLike ⟨R, home, remote, sym⟩ s hR hRr hhome hu
+    rw [absContextStr_local _ s hu, absContextStr_local _ _ h2, absContextStr_local _ s hu]
+    exact absPathStr_compose home remote sym W R s hW hR hRr
 
 end CV.Paths
